@@ -1,6 +1,6 @@
 """Contracts on pyasn1/codec/streaming.py: re-tryable reads (kind D2), end-of-stream test, peek."""
 from pyvc.core import Contract, Loop, PInt, PConst, POneOf, PBytes, CallContract
-from pyvc.core import PObj, PDerived, FnV
+from pyvc.core import PObj, PDerived, FnV, PSort
 from pyvc.models import PStream, PBytesIO, new_bytesio
 import z3
 
@@ -52,6 +52,19 @@ IS_EOS_BYTESIO = Contract(
     external=['bool', 'answers-are-booleans', 'non-destructive', 'one-yield'],
 )
 
+class PMaybeChunk(PSort):
+    """what read(1) gave last: None (no data yet) or at most one octet"""
+
+    def make(self, ex, name):
+        import z3 as _z
+        from pyvc.core import SeqV, S, bytes_axiom, BoolSort
+        if ex.choose(_z.Bool(name + '.isNone'), 'no-data-yet'):
+            return None
+        z = _z.Const(name, S)
+        ex.assume(bytes_axiom(z, name))
+        return SeqV(z, 'bytes')
+
+
 IS_EOS_GENERIC = Contract(
     id='codec.streaming::isEndOfStream[generic]', file=F, qual='isEndOfStream', properties=['C05', 'C06', 'C07'],
     params=dict(substrate=PStream('partial', bases=('IOBase',))),
@@ -65,6 +78,12 @@ IS_EOS_GENERIC = Contract(
         ('non-destructive', 'substrate.pos == old(substrate.pos)')],
     exit_ensures=[('ends-with-bool', 'isinstance(last_yield(), bool)'),
                   ('non-destructive', 'substrate.pos == old(substrate.pos)')],
+    loops={0: Loop(decl={'received': PMaybeChunk()},
+                   invariant=['(received is None) ==> substrate.pos == old(substrate.pos)',
+                              '(received is not None) ==> (len(received) <= 1 and substrate.pos == old(substrate.pos) + len(received))',
+                              '(received is not None and len(received) == 0) ==> substrate.eof_signalled',
+                              '(received is not None and len(received) == 1) ==> old(substrate.pos) < len(substrate.data)'],
+                   havoc_fields=['substrate.pos', 'substrate.eof_signalled', 'substrate.none_seen', 'substrate.__reads__'], yields_each_iteration=True)},
     external=['true-only-at-eof', 'false-only-with-data', 'non-destructive', 'ends-with-bool'],
 )
 
